@@ -12,6 +12,7 @@ import (
 	"sort"
 	"strings"
 	"sync"
+	"syscall"
 	"time"
 
 	"verifsim/gen"
@@ -368,9 +369,17 @@ loop:
 				lastChange = time.Now()
 			}
 			if time.Since(lastChange).Seconds() > stallS {
-				cmd.Process.Kill()
+				// ask the Go runtime for the stacks of all goroutines first (they tell a hang
+				// inside the container from one inside the harness), then kill
+				_ = cmd.Process.Signal(syscall.SIGQUIT)
+				select {
+				case werr = <-done:
+				case <-time.After(10 * time.Second):
+					cmd.Process.Kill()
+					werr = <-done
+				}
 				wo.killed = true
-				werr = <-done
+				wo.err = "goroutines of the stalled worker:\n" + stallStacks(out.String())
 				break loop
 			}
 		}
@@ -879,4 +888,30 @@ func simulatedTime(a *agg) string {
 		return fmt.Sprintf("%d s of simulated time (the bubble's clock) passed in %d runs while closers were parked inside App.Close - the scheduler decides, as a pick, that parked closers are that slow, so a timer inside the container would fire; otherwise: %s", n, a.probes["time-passed-while-closers-were-parked"], base)
 	}
 	return "not applicable: " + base
+}
+
+// stallStacks condenses a SIGQUIT goroutine dump: goroutines that are not parked in the
+// harness scheduler first, go-kid/ioc frames kept.
+func stallStacks(dump string) string {
+	blocks := strings.Split(dump, "\n\n")
+	var keep []string
+	for _, b := range blocks {
+		if !strings.HasPrefix(strings.TrimSpace(b), "goroutine ") {
+			continue
+		}
+		if strings.Contains(b, "go-kid/ioc") || strings.Contains(b, "verifsim/engine") || strings.Contains(b, "verifsim/simrt") {
+			lines := strings.Split(b, "\n")
+			if len(lines) > 24 {
+				lines = lines[:24]
+			}
+			keep = append(keep, strings.Join(lines, "\n"))
+		}
+		if len(keep) >= 6 {
+			break
+		}
+	}
+	if len(keep) == 0 {
+		return tail(dump, 60)
+	}
+	return strings.Join(keep, "\n\n")
 }
